@@ -750,9 +750,19 @@ type outerVerdict struct {
 	timedOut bool
 }
 
-func solveOuter(circ, asg frontend.Circuit, field *big.Int) outerVerdict {
+// serialBW6: std/algebra/emulated/sw_bw6761 keeps a package-level emulated.Element (thirdRootOne) in
+// which the emulated field caches a per-run evaluation, so two engines (or compilations) that use the
+// BW6-761 pairing at the same time disturb each other. Those runs are serialised here (harness concern;
+// the defect itself belongs to the concurrency property).
+var serialBW6 sync.Mutex
+
+func solveOuter(circ, asg frontend.Circuit, field *big.Int, serial bool) outerVerdict {
 	ch := make(chan error, 1)
 	go func() {
+		if serial {
+			serialBW6.Lock()
+			defer serialBW6.Unlock()
+		}
 		var err error
 		if msg := ev.Safely(func() { err = test.IsSolved(circ, asg, field) }); msg != "" {
 			err = fmt.Errorf("%s", msg)
@@ -938,7 +948,8 @@ func (in *inner) evalTriple(t Triple, cc *compiledCache) (res tripleResult) {
 	if berr != nil {
 		return tripleResult{skip: "assignment: " + firstLine(berr.Error())}
 	}
-	ov := solveOuter(circ, asg, in.p.Outer())
+	serial := c.Pair == "bw6-761>bn254"
+	ov := solveOuter(circ, asg, in.p.Outer(), serial)
 	if ov.timedOut {
 		return tripleResult{skip: fmt.Sprintf("outer test-engine run did not return within %s", outerTimeout)}
 	}
@@ -998,6 +1009,10 @@ func (in *inner) evalTriple(t Triple, cc *compiledCache) (res tripleResult) {
 		sig := c.Mode
 		if c.Mode == KeyFixed || c.Mode == KeyConst || c.Mode == KeySwitchC || c.Mode == KeySame2 {
 			sig += "|" + strings.Join(keyNames, ",")
+		}
+		if serial {
+			serialBW6.Lock()
+			defer serialBW6.Unlock()
 		}
 		ccs, cerr := cc.get(sig, in.p.Outer(), c.Scheme, circ)
 		if ccs == nil {
@@ -1365,11 +1380,16 @@ func TestTwoChains(t *testing.T) {
 }
 
 func TestEmulated(t *testing.T) {
+	if os.Getenv("C17_ONLY") == "twochains" {
+		t.Skip("development switch: two-chain pairings only")
+	}
 	rec := ev.Get(ID)
 	setup(rec)
-	all := []string{"bn254>bn254", "bls12-381>bn254", "bw6-761>bn254"}
-	g := genCase(genCfg{schemes: []string{"groth16", "plonk"}, pairs: all, minT: 2, maxT: 3, firstGenuine: true})
-	rec.Check(t, "rec", ev.N(3, 120), func(rt *rapid.T) {
+	// one engine run costs seconds (minutes on a loaded machine); bw6-761>bn254 is the most expensive
+	// and its runs are serialised (see serialBW6), so it is drawn less often
+	ps := []string{"bn254>bn254", "bn254>bn254", "bls12-381>bn254", "bls12-381>bn254", "bw6-761>bn254"}
+	g := genCase(genCfg{schemes: []string{"groth16", "plonk"}, pairs: ps, minT: 2, maxT: 3, firstGenuine: true})
+	rec.Check(t, "rec", ev.N(3, 96), func(rt *rapid.T) {
 		c := g.Draw(rt, "case")
 		rec.Report(rt, "rec", c, run(c, rec))
 	})
